@@ -331,6 +331,9 @@ def check_aliases(ctx, rels):
             for r, node in reused_buffers(f.node, outer):
                 ctx.bad("reused-buffer:%s:%s" % (q.split(".", 1)[-1], r), "%s:%d" % (rel, node.lineno),
                         "%s reads `%s.getvalue()` from a stream that outlives the call and is never truncated: after a longer use the tail of the earlier bytes stays behind the shorter later ones" % (q, r))
+            for node, t in class_level_stores(f.node, (f.cls.name,) if f.cls is not None else ()):
+                ctx.bad("instance-value-on-class:%s" % q.split(".", 1)[-1], "%s:%d" % (rel, node.lineno),
+                        "%s stores a value computed from the instance on the class (`%s = ...`): all instances share the slot, so every other instance (another network, another key) finds the value of the one that filled it first" % (q, t))
             for node, t in native_struct_formats(f.node):
                 ctx.bad("native-struct-format:%s" % q.split(".", 1)[-1], "%s:%d" % (rel, node.lineno),
                         "%s packs / unpacks with the struct format `%s`, which has no byte-order prefix: fields wider than a byte take the machine's byte order and are ALIGNED (padding bytes between a 1-byte and an 8-byte field), unlike the wire format" % (q, t))
@@ -403,4 +406,37 @@ def native_struct_formats(fn):
                 out.append((n, t))
         elif isinstance(a, ast.Call) and isinstance(a.func, ast.Attribute) and a.func.attr == "join" and isinstance(a.func.value, ast.Constant) and a.func.value.value in ("", b""):
             out.append((n, ast.unparse(a)[:60]))
+    return out
+
+
+def class_level_stores(fn, class_names=()):
+    """[(node, target text)]: a method stores a value computed from the instance (`self....`) on the CLASS (`self.__class__.x = ..`,
+    `type(self).x = ..`, `ClassName.x = ..`): every instance -- every network, every key -- then finds the value of whichever
+    instance got there first"""
+    out = []
+    if not isinstance(fn, (ast.FunctionDef, ast.AsyncFunctionDef)) or not fn.args.args:
+        return out
+    me = fn.args.args[0].arg
+    if me not in ("self",):
+        return out
+    for n in ast.walk(fn):
+        tgts, val = [], None
+        if isinstance(n, ast.Assign):
+            tgts, val = n.targets, n.value
+        elif isinstance(n, (ast.AugAssign, ast.AnnAssign)) and getattr(n, "value", None) is not None:
+            tgts, val = [n.target], n.value
+        for t in tgts:
+            if not isinstance(t, (ast.Attribute, ast.Subscript)):
+                continue
+            base = t.value
+            while isinstance(base, ast.Subscript):
+                base = base.value
+            if isinstance(t, ast.Subscript):
+                if not isinstance(base, ast.Attribute):
+                    continue
+                base = base.value
+            bt = ast.unparse(base)
+            if bt in ("%s.__class__" % me, "type(%s)" % me) or bt in class_names:
+                if any(isinstance(x, ast.Name) and x.id == me for x in ast.walk(val)):
+                    out.append((n, ast.unparse(t)[:60]))
     return out
